@@ -224,6 +224,9 @@ class Cfg:
         self.lib_name = "lib"
         self.main_name = "main"
         self.lib_as = None
+        self.widths = None          # when set: integer widths are drawn from this list only
+        self.caps = None            # when set: array capacities are drawn from this list only
+        self.p_small_leaf = 0.27    # share of bool / byte among base leaves
         for k, v in kw.items():
             if not hasattr(self, k):
                 raise KeyError(k)
@@ -251,13 +254,16 @@ class RandSchema:
     # ---- leaves ----
     def width(self):
         r = self.rng
+        if self.cfg.widths:
+            return r.choice(self.cfg.widths)
         return r.choice(WIDTH_BIAS) if r.random() < 0.6 else r.randint(1, 64)
 
     def gen_base(self):
         r = self.rng.random()
-        if r < 0.15:
+        ps = self.cfg.p_small_leaf
+        if r < ps * 0.55:
             return {"k": "bool"}, {"k": "bool"}
-        if r < 0.27:
+        if r < ps:
             return {"k": "byte"}, {"k": "byte"}
         n = self.width()
         k = "uint" if r < 0.65 else "int"
@@ -382,6 +388,8 @@ class RandSchema:
         maxcap = max(1, avail // max(nb, 1)) if nb else 8
         if self.cfg.big_arrays and self.rng.random() < 0.3:
             cap = min(maxcap, self.rng.choice([64, 100, 255, 256, 1000, 4096, 65535]))
+        elif self.cfg.caps:
+            cap = min(maxcap, self.rng.choice(self.cfg.caps))
         else:
             cap = min(maxcap, self.rng.choice(CAP_BIAS) if self.rng.random() < 0.8 else self.rng.randint(1, 40))
         cap = max(1, min(cap, 65535))
@@ -493,14 +501,25 @@ class RandSchema:
                 "top": top_name, "rtype": rt, "nbits": nb}
 
 
+# a profile that makes "wire size == 8 * sizeof" coincidences likely: byte-multiple and nibble widths, power-of-two
+# capacities, many extensible markers, few bool / byte leaves (fast paths keyed on such equalities live here)
+COINCIDENCE = dict(widths=[8, 16, 24, 32, 40, 48, 56, 64, 4, 12, 6, 7, 28, 60], caps=[1, 2, 3, 4, 8, 16], p_ext=0.55,
+                   p_small_leaf=0.08, max_fields=3, p_empty_msg=0.0)
+
+
 def rand_case(seed_, idx, **cfg):
     rng = random.Random("%d/%d" % (seed_, idx))
     r = rng.random()
     kw = dict(cfg)
     if "max_bits" not in kw:
         kw["max_bits"] = rng.choice([40, 120, 400, 1200, 3000]) if r < 0.9 else 12000
+    reuse = kw.pop("reuse_names", 0.35)
     g = RandSchema(rng, Cfg(**kw))
-    return g.build(), rng
+    prog = g.build()
+    if reuse and rng.random() < reuse:
+        # the same bare name for different nested definitions in unrelated scopes
+        reuse_nested_names(prog, random.Random("reuse/%d/%d" % (seed_, idx)))
+    return prog, rng
 
 
 # --------------------------------------------------------------------------------------
@@ -643,3 +662,123 @@ def wrap_diamond(prog, rng, app="app", top="App"):
     p["nbits"] = None
     p.pop("_texts", None)
     return p
+
+
+# --------------------------------------------------------------------------------------
+# the same bare name in unrelated scopes (enum Status nested in two different messages ...)
+# --------------------------------------------------------------------------------------
+
+def reuse_nested_names(prog, rng, p=0.6):
+    """Renames nested enum / message definitions to names that nested definitions of the same kind carry in
+    UNRELATED message bodies (neither an ancestor nor a descendant, never a top-level name), so that one bare
+    name denotes different definitions in different scopes.  References are updated; the intended type tree
+    keeps its structure (names only).  Returns the number of definitions renamed."""
+    bodies = []      # (body list, ancestors: list of body ids)
+
+    def walk(decls, anc):
+        for d in decls:
+            if d["d"] == "message":
+                bodies.append((d["body"], anc))
+                walk(d["body"], anc + [id(d["body"])])
+    top_names = set()
+    for decls in prog["files"].values():
+        top_names |= {d["name"] for d in decls if "name" in d}
+        walk(decls, [])
+    by_id = {id(b): (b, anc) for b, anc in bodies}
+
+    def subtree_names(body):
+        out = set()
+        for d in body:
+            if d["d"] in ("message", "enum"):
+                out.add(d["name"])
+            if d["d"] == "message":
+                out |= subtree_names(d["body"])
+        return out
+
+    def set_refs(body, old, new):
+        for d in body:
+            if d["d"] == "field":
+                t = d["t"]
+                for te in ([t, t["elem"]] if t["k"] == "array" else [t]):
+                    if te["k"] == "ref" and te["path"] == [old]:
+                        te["path"] = [new]
+            elif d["d"] == "message":
+                set_refs(d["body"], old, new)
+
+    nodes = []
+    if prog.get("rtype") is not None:
+        _typed_nodes(prog["rtype"], nodes, set())
+    renamed = 0
+    for body, anc in bodies:
+        for d in body:
+            if d["d"] not in ("message", "enum") or rng.random() >= p:
+                continue
+            related = set(anc) | {id(body)}
+            pool = []
+            for ob, oanc in bodies:
+                if id(ob) in related or id(body) in oanc:
+                    continue            # the body itself, an ancestor, or a descendant
+                pool += [x["name"] for x in ob if x["d"] == d["d"]]
+            forbidden = set(top_names) | subtree_names(body)
+            for a in anc:
+                forbidden |= {x["name"] for x in by_id[a][0] if "name" in x}
+            pool = sorted(set(pool) - forbidden)
+            if not pool:
+                continue
+            old, new = d["name"], rng.choice(pool)
+            d["name"] = new
+            set_refs(body, old, new)
+            for n in nodes:
+                if n.get("name") == old and (n["k"] == "enum" or n.get("_decl") is d):
+                    n["name"] = new
+            renamed += 1
+    return renamed
+
+
+def same_names_program():
+    """Different definitions carrying the same bare name in different scopes (an enum Mode of 3 bits nested in Lamp,
+    one of 12 bits nested in Motor, a message Cfg nested in both, equal-shaped arrays of both enums): what is
+    generated for one use must not depend on which other definition of that name was seen first.  Traditional
+    (no extensible marker); comes with its intended type tree."""
+    def enum(n, vals):
+        decl = {"d": "enum", "name": "Mode", "n": n,
+                "body": [{"d": "efield", "name": "MODE_%s" % letters(i).upper(), "value": v} for i, v in enumerate(vals)]}
+        return decl, {"k": "enum", "n": n, "name": "Mode", "_vals": sorted(vals), "_default": vals[0]}
+
+    def cfg(n):
+        decl = {"d": "message", "name": "Cfg", "ext": False,
+                "body": [{"d": "field", "name": "level", "num": 1, "t": {"k": "uint", "n": n}}]}
+        return decl, {"k": "msg", "name": "Cfg", "ext": False, "_decl": decl,
+                      "fields": [{"num": 1, "name": "level", "t": {"k": "uint", "n": n}}]}
+
+    def msg(name, items):
+        """items: nested declarations (dict with 'd') or (field name, number, type expr, resolved type)"""
+        body, fields = [], []
+        for it in items:
+            if isinstance(it, dict):
+                body.append(it)
+            else:
+                fname, num, te, rt = it
+                body.append({"d": "field", "name": fname, "num": num, "t": te})
+                fields.append({"num": num, "name": fname, "t": rt})
+        decl = {"d": "message", "name": name, "ext": False, "body": body}
+        return decl, {"k": "msg", "name": name, "ext": False, "fields": fields, "_decl": decl}
+
+    def arr(te, rt, cap):
+        ate = {"k": "array", "elem": te, "cap": lit(cap), "ext": False}
+        return ate, {"k": "array", "ext": False, "cap": cap, "elem": rt, "_texpr": ate}
+    e3d, e3 = enum(3, [0, 1, 5])
+    e12d, e12 = enum(12, [0, 7, 2049, 4095])
+    c5d, c5 = cfg(5)
+    c40d, c40 = cfg(40)
+    a3te, a3 = arr(tref(["Mode"]), e3, 4)
+    a12te, a12 = arr(tref(["Mode"]), e12, 4)
+    lampd, lamp = msg("Lamp", [e3d, ("mode", 1, tref(["Mode"]), e3), c5d, ("cfg", 2, tref(["Cfg"]), c5),
+                               ("modes", 3, a3te, a3)])
+    motord, motor = msg("Motor", [e12d, ("mode", 1, tref(["Mode"]), e12), c40d, ("cfg", 2, tref(["Cfg"]), c40),
+                                  ("rpm", 3, {"k": "int", "n": 24}, {"k": "int", "n": 24}), ("modes", 4, a12te, a12)])
+    mste, ms = arr(tref(["Motor"]), motor, 2)
+    topd, top = msg("Top", [("lamp", 1, tref(["Lamp"]), lamp), ("motor", 2, tref(["Motor"]), motor),
+                            ("motors", 3, mste, ms)])
+    return {"files": {"main": [{"d": "proto", "name": "main"}, lampd, motord, topd]}, "order": ["main"],
+            "main": "main", "top": "Top", "rtype": top, "nbits": None}
